@@ -263,6 +263,17 @@ class Value(css_parser.util._NewBase):
                   self.type, self.value, self.cssText,
                   id(self))
 
+    def _valueitem(self, seq):
+        """Return the item of `seq` which holds the value: the first one
+        that is not a comment (comments in front of the value stay in
+        `seq`). ``None`` if there is none, e.g. for tokens that are an EOF
+        only.
+        """
+        for item in seq:
+            if not isinstance(item.value, css_parser.css.CSSComment):
+                return item
+        return None
+
     def _setCssText(self, cssText):
         self._checkReadonly()
 
@@ -273,10 +284,16 @@ class Value(css_parser.util._NewBase):
                        )
         ok, seq, store, unused = ProdParser().parse(cssText, 'Value', prods)
         if ok:
+            # only 1 value anyway, maybe after comments
+            item = self._valueitem(seq)
+            if item is None:
+                self._log.error('Value: No value found: %s' %
+                                self._valuestr(cssText))
+                return
+
             self.wellformed = ok
-            # only 1 value anyway!
-            self._type = seq[0].type
-            self._value = seq[0].value
+            self._type = item.type
+            self._value = item.value
 
             self._setSeq(seq)
 
@@ -378,7 +395,14 @@ class ColorValue(Value):
                                                     self.type,
                                                     prods)
         if ok:
-            t, v = seq[0].type, seq[0].value
+            # the value, maybe after comments
+            item = self._valueitem(seq)
+            if item is None:
+                self._log.error('ColorValue: No value found: %s' %
+                                self._valuestr(cssText))
+                return
+
+            t, v = item.type, item.value
             if 'IDENT' == t:
                 rgba = self.COLORS[normalize(v)]
             if 'HASH' == t:
@@ -536,7 +560,12 @@ class DimensionValue(Value):
                                                     'DimensionValue',
                                                     prods)
         if ok:
-            item = seq[0]
+            # the value, maybe after comments
+            item = self._valueitem(seq)
+            if item is None:
+                self._log.error('DimensionValue: No value found: %s' %
+                                self._valuestr(cssText))
+                return
 
             sign, v, d = self.__reUnNumDim.findall(
                 normalize(item.value))[0]
@@ -595,10 +624,16 @@ class URIValue(Value):
 
         ok, seq, store, unused = ProdParser().parse(cssText, 'URIValue', prods)
         if ok:
+            # only 1 value only anyway, maybe after comments
+            item = self._valueitem(seq)
+            if item is None:
+                self._log.error('URIValue: No value found: %s' %
+                                self._valuestr(cssText))
+                return
+
             self.wellformed = ok
-            # only 1 value only anyway
-            self._type = seq[0].type
-            self._value = seq[0].value
+            self._type = item.type
+            self._value = item.value
 
             self._setSeq(seq)
 
